@@ -113,8 +113,10 @@ pub fn spaces(with_legacy: bool) -> Vec<Space> {
         });
         v.push(Space {
             name: "geod_legacy", family: "ge", unit: PI * WGS84_A / 180.0, canonical_bearing: false,
-            dist: Box::new(|a, b| a.geodesic_distance(&b)),
-            bear: Box::new(|a, b| a.geodesic_bearing(b)),
+            // geodesic_bearing_distance must be the pair (geodesic_bearing, geodesic_distance): a disagreement turns into NaN,
+            // which no expectation accepts
+            dist: Box::new(|a, b| { let d = a.geodesic_distance(&b); let (_, d2) = a.geodesic_bearing_distance(b); if (d - d2).abs() <= 1e-6 { d } else { f64::NAN } }),
+            bear: Box::new(|a, b| { let t = a.geodesic_bearing(b); let (t2, _) = a.geodesic_bearing_distance(b); if (t - t2).abs() <= 1e-9 || t.is_nan() { t } else { f64::NAN } }),
             dest: Box::new(|a, t, d| a.geodesic_destination(t, d)),
             ratio: Box::new(|a, b, r| a.geodesic_intermediate(&b, r)),
             dist_between: None,
